@@ -1184,9 +1184,50 @@ func ZZ_%(P)s_%(N)s_Shrink() {
 
 C10_MODEL_GO = """//vf:dir util/hmap
 //vf:race
+//vf:import util/hmap sync github.com/whatap/golib/zzvf/zsync native
 package hmap
 
 // GENERATED by /verif/harness/gen_hmap.py -- do not edit; helpers shared by the C10 harness files.
+
+import (
+	"strings"
+
+	"github.com/whatap/golib/zzvf"
+)
+
+// the lock event log (ghost log under the executor; natively written by package zsync, which
+// replaces sync in this package for the replay)
+func zzEventCount() int {
+	s := zzvf.Events()
+	if s == "" {
+		return 0
+	}
+	return len(strings.Split(s, ";"))
+}
+
+// zzSections: number of top-level lock acquisitions since event index `from`: a point
+// operation that is one atomic step takes the structure's lock ONCE (check-then-act over two
+// critical sections is not atomic even though every access is locked)
+func zzSections(from int) int {
+	s := zzvf.Events()
+	if s == "" {
+		return 0
+	}
+	ev := strings.Split(s, ";")
+	depth, n := 0, 0
+	for _, e := range ev[from:] {
+		switch {
+		case strings.HasPrefix(e, "lock "), strings.HasPrefix(e, "rlock "):
+			if depth == 0 {
+				n++
+			}
+			depth++
+		case strings.HasPrefix(e, "unlock "), strings.HasPrefix(e, "runlock "):
+			depth--
+		}
+	}
+	return n
+}
 
 // zzLK: harness LinkedKey (hash independent of the identity, so chains exist in the small tables)
 type zzLK struct {
@@ -1455,6 +1496,7 @@ func zzPre10_%(N)s(n int) *%(N)s {
     w("""// ZZ_C10_%(N)s: lock discipline of %(N)s.
 // Pre-state: 0, 1 or 3 entries in a 3-slot table (chain of two, the next new key grows the table).
 // (1) every public method (op a) runs under the self-deadlock watchdog on its own instance;
+//     and every point operation takes the lock at most once (one critical section = one atomic step);
 // (2) every unordered pair (a, b), a <= b, of the point operations + size/is-empty/is-full runs as a
 //     RacePair on one fresh shared instance: a common cell with a write and no common lock is a race.
 //vf:paths=20000 deadline=4m
@@ -1462,8 +1504,11 @@ func ZZ_C10_%(N)s() {
 	n := %(pre)s
 	a := zzvf.Choose(len(zzOps10_%(N)s))
 	opA := zzOps10_%(N)s[a]
-	zzvf.Guard("deadlock/%(N)s/"+opA, zzOp10_%(N)s(zzPre10_%(N)s(n), opA))
+	g := zzPre10_%(N)s(n)
+	e0 := zzEventCount()
+	zzvf.Guard("deadlock/%(N)s/"+opA, zzOp10_%(N)s(g, opA))
 	if a < %(np)d {
+		zzvf.Assert(zzSections(e0) <= 1, "atomic/%(N)s/"+opA+"/one-critical-section")
 		opB := zzOps10_%(N)s[a+zzvf.Choose(%(np)d-a)]
 		zzvf.RacePairFresh("race/%(N)s/"+opA+"|"+opB, func() (func(), func()) {
 			m := zzPre10_%(N)s(n)
